@@ -69,16 +69,27 @@ def _dot(u, w):
     return tot
 
 
-def _mk_blocks(rng, nnodes, with_empty):
-    """two blocks with different, unordered PID subsets (+ optionally an empty one); data symbolic"""
-    blocks = []
-    pidsets = [rng.sample(PIDS, rng.randint(5, 9)), list(PIDS)]
-    rng.shuffle(pidsets[1])
-    for bi, ps in enumerate(pidsets):
-        blocks.append({"mu2grid": rnp.array([1.0, 2.0]), "xgrid": rnp.array([0.1, 1.0]), "pids": rnp.array(ps),
-                       "data": symarr("d%d" % bi, (nnodes, len(ps)))})
+def _layout(rng, nnodes, with_empty):
+    """block structure [(pids, number of nodes)] of one project() call. Consecutive blocks are arranged so that stale state
+    from an earlier block would matter: a block is followed by one with the SAME number of nodes that lacks PIDs the earlier
+    one had (subset -> other subset, all 14 -> subset), then a block of another size; optionally an empty block in between."""
+    a = rng.sample(PIDS, rng.randint(5, 9))
+    b = [p for p in rng.sample(PIDS, rng.randint(4, 8)) if p != a[0] and p != a[1]]  # lacks at least two PIDs of a
+    full = list(PIDS)
+    rng.shuffle(full)
+    c = [p for p in rng.sample(PIDS, rng.randint(4, 9)) if p != full[0]]
+    lay = [(a, nnodes), (b, nnodes), (full, nnodes), (c, nnodes), (rng.sample(PIDS, 3), nnodes + 1)]
     if with_empty:
-        blocks.insert(1, {"mu2grid": rnp.array([1.0, 2.0]), "xgrid": rnp.array([0.1, 1.0]), "pids": rnp.array([-1, 21, 1]), "data": rnp.array([])})
+        lay.insert(2, ([-1, 21, 1], 0))
+    return [(list(map(int, ps)), n) for ps, n in lay]
+
+
+def _mk_blocks(layout):
+    """symbolic blocks for a layout; entry (i, j) of block bi is the symbol d<bi>_<i>_<j>"""
+    blocks = []
+    for bi, (ps, n) in enumerate(layout):
+        data = symarr("d%d" % bi, (n, len(ps))) if n else rnp.array([])
+        blocks.append({"mu2grid": rnp.array([1.0, 2.0]), "xgrid": rnp.array([0.1, 1.0]), "pids": rnp.array(ps), "data": data})
     return blocks
 
 
@@ -95,6 +106,9 @@ def _check_selection(log, fl, name, blocks, reprs_real, reprs, complement, compl
     ok = len(out) == len(blocks)
     f_diffs, k_diffs, a_diffs, c_diffs, i_diffs = [], [], [], [], []
     out2 = fl.project(out, reprs_real)
+    # a further call in the same process on the same blocks in reverse order: no block may depend on what was projected before it
+    out3 = fl.project(blocks[::-1], reprs_real)[::-1]
+    h_diffs = []
     for bi, (b, o) in enumerate(zip(blocks, out)):
         if len(b["data"]) == 0:
             ok = ok and len(o["data"]) == 0 and list(o["pids"]) == list(b["pids"])
@@ -116,6 +130,7 @@ def _check_selection(log, fl, name, blocks, reprs_real, reprs, complement, compl
             if complete:
                 c_diffs += [g - f for g, f in zip(got, F)]
             i_diffs += [out2[bi]["data"][i, a] - got[a] for a in range(14)]
+            h_diffs += [out3[bi]["data"][i, a] - got[a] for a in range(14)] if tuple(rnp.shape(out3[bi]["data"])) == (len(b["data"]), 14) else [SR(QONE)]
     # inputs untouched
     same = all(rnp.array_equal(b["pids"], s[0]) and b["data"].shape == s[1].shape and all(x is y for x, y in zip(b["data"].flat, s[1].flat))
                for b, s in zip(blocks, snapshot))
@@ -124,7 +139,8 @@ def _check_selection(log, fl, name, blocks, reprs_real, reprs, complement, compl
     if not ok:
         return
     for key, diffs, what in (("project:formula", f_diffs, "out == sum_e e (e.F)/(e.e)"), ("project:kept", k_diffs, "components along the selection are kept"),
-                             ("project:annihilated", a_diffs, "the orthogonal complement is removed"), ("project:idempotent", i_diffs, "projecting twice == projecting once")):
+                             ("project:annihilated", a_diffs, "the orthogonal complement is removed"), ("project:idempotent", i_diffs, "projecting twice == projecting once"),
+                             ("project:history", h_diffs, "each block's result is independent of the blocks / calls processed before it (same blocks in reverse order, later call)")):
         v = prove_all_zero(diffs, "%s: %s" % (name, what))
         decide(log, v, key=key, replay=(MOD, "replay_project", rk), sampler=_sampler)
     if complete:
@@ -172,7 +188,8 @@ def case_labels(log, basis, selections, nnodes, tag):
     def run():
         rng = random.Random(seed0)
         for si, sel in enumerate(selections):
-            blocks = _mk_blocks(rng, nnodes, with_empty=(si % 3 == 0))
+            layout = _layout(rng, nnodes, with_empty=(si % 3 == 0))
+            blocks = _mk_blocks(layout)
             if basis == "pid":
                 labels = [PIDS[i] for i in sel]
                 reprs_real = fl.pid_to_flavor(labels)
@@ -184,7 +201,7 @@ def case_labels(log, basis, selections, nnodes, tag):
                 vecs = [evol_definition(l) for l in labels]
                 comp = [evol_definition(l) for l in EVOL if l not in labels]
             _check_selection(log, fl, "%s %s" % (basis, labels), blocks, reprs_real, vecs, comp, len(sel) == 14,
-                             {"basis": basis, "sel": list(sel)})
+                             {"basis": basis, "sel": list(sel), "layout": layout})
         log.twin("domain")
         log.collect_ctx()
 
@@ -251,9 +268,10 @@ def case_custom(log, kind, nnodes):
         vecs, comp, complete = _custom(kind)
         for v_ in vecs:
             assume(_dot(v_, v_), ">0")
-        blocks = _mk_blocks(random.Random(seed0), nnodes, with_empty=True)
+        layout = _layout(random.Random(seed0), nnodes, with_empty=True)
+        blocks = _mk_blocks(layout)
         reprs_real = [rnp.array(v_, dtype=object) for v_ in vecs]
-        _check_selection(log, fl, "custom %s" % kind, blocks, reprs_real, vecs, comp, complete, {"basis": "custom", "kind": kind})
+        _check_selection(log, fl, "custom %s" % kind, blocks, reprs_real, vecs, comp, complete, {"basis": "custom", "kind": kind, "layout": layout})
         log.twin("domain")
         log.collect_ctx()
 
@@ -336,7 +354,7 @@ def _custom_float(kind, rng, point):
     raise ValueError(kind)
 
 
-def replay_project(point, basis, sel=None, kind=None):
+def replay_project(point, basis, sel=None, kind=None, layout=None):
     from ekobox.genpdf import flavors as fl
 
     rng = rnp.random.default_rng(int(getv(point, "seed", 11)))
@@ -355,33 +373,55 @@ def replay_project(point, basis, sel=None, kind=None):
         if any(sum(x * x for x in v) < 1e-6 for v in vecs):
             return None
         reprs = [rnp.array(v) for v in vecs]
-    ps = [int(p) for p in rng.permutation(PIDS)[: int(rng.integers(5, 15))]]
-    data = rng.normal(size=(3, len(ps)))
-    blocks = [{"mu2grid": rnp.array([1.0, 2.0]), "xgrid": rnp.array([0.1, 1.0]), "pids": rnp.array(ps), "data": data.copy()},
-              {"mu2grid": rnp.array([1.0]), "xgrid": rnp.array([0.1]), "pids": rnp.array([1, 2]), "data": rnp.array([])}]
+    if layout is None:
+        layout = _layout(random.Random(int(getv(point, "seed", 11))), 3, True)
+    datas = []
+    for bi, (ps, n) in enumerate(layout):
+        d = rng.normal(size=(n, len(ps))) if n else rnp.array([])
+        for idx in rnp.ndindex(d.shape):
+            d[idx] = getv(point, "d%d_%d_%d" % ((bi,) + idx), d[idx])
+        datas.append(d)
+
+    def mk():
+        return [{"mu2grid": rnp.array([1.0, 2.0]), "xgrid": rnp.array([0.1, 1.0]), "pids": rnp.array(ps), "data": d.copy()} for (ps, _n), d in zip(layout, datas)]
+
+    blocks = mk()
+    # the same sequence of calls as the symbolic run, in one process: project, project again on the result, project the reversed list
     out = fl.project(blocks, reprs)
-    if not rnp.array_equal(blocks[0]["data"], data) or [int(p) for p in blocks[0]["pids"]] != ps:
-        return {"detail": "project modified its input block"}
-    if len(out) != 2 or len(out[1]["data"]) != 0:
-        return {"detail": "empty block not passed through"}
-    o = out[0]
-    if [int(p) for p in o["pids"]] != PIDS or o["data"].shape != (3, 14):
-        return {"detail": "output block pids %r shape %r" % (list(o["pids"]), o["data"].shape)}
-    twice = fl.project(out, reprs)[0]["data"]
-    for i in range(3):
-        F = [data[i, ps.index(p)] if p in ps else 0.0 for p in PIDS]
-        want = [0.0] * 14
-        for e in vecs:
-            c = sum(x * y for x, y in zip(e, F)) / sum(x * x for x in e)
-            want = [w + x * c for w, x in zip(want, e)]
-        scale = 1 + max(abs(x) for x in F)
-        for a in range(14):
-            if abs(o["data"][i, a] - want[a]) > 1e-8 * scale:
-                return {"detail": "project(%s) node %d flavour %d: got %r, orthogonal projection gives %r" % (kind or labels, i, PIDS[a], o["data"][i, a], want[a])}
-            if abs(twice[i, a] - o["data"][i, a]) > 1e-8 * scale:
-                return {"detail": "project(%s) not idempotent at node %d flavour %d: %r vs %r" % (kind or labels, i, PIDS[a], twice[i, a], o["data"][i, a])}
-            if complete and abs(o["data"][i, a] - F[a]) > 1e-8 * scale:
-                return {"detail": "project on a complete orthogonal set changed node %d flavour %d: %r -> %r" % (i, PIDS[a], F[a], o["data"][i, a])}
+    twice = fl.project(out, reprs)
+    rev = fl.project(mk()[::-1], reprs)[::-1]
+    for b, d, (ps, _n) in zip(blocks, datas, layout):
+        if not rnp.array_equal(b["data"], d) or [int(p) for p in b["pids"]] != ps:
+            return {"detail": "project modified its input block"}
+    if len(out) != len(layout):
+        return {"detail": "%d blocks in, %d out" % (len(layout), len(out))}
+    what = kind or labels
+    for bi, ((ps, n), d) in enumerate(zip(layout, datas)):
+        o = out[bi]
+        if n == 0:
+            if len(o["data"]) != 0:
+                return {"detail": "empty block not passed through"}
+            continue
+        if [int(p) for p in o["pids"]] != PIDS or o["data"].shape != (n, 14):
+            return {"detail": "output block %d pids %r shape %r" % (bi, list(o["pids"]), o["data"].shape)}
+        prev = [l for l in layout[:bi] if l[1] == n]
+        for i in range(n):
+            F = [d[i, ps.index(p)] if p in ps else 0.0 for p in PIDS]
+            want = [0.0] * 14
+            for e in vecs:
+                c = sum(x * y for x, y in zip(e, F)) / sum(x * x for x in e)
+                want = [w + x * c for w, x in zip(want, e)]
+            scale = 1 + max(abs(x) for x in F)
+            for a in range(14):
+                if abs(o["data"][i, a] - want[a]) > 1e-8 * scale:
+                    return {"detail": "project(%s), block %d of %d (pids %r, %d nodes; %d earlier block(s) of the same size, the one before has pids %r) node %d flavour %d: got %r, orthogonal projection of this block gives %r"
+                            % (what, bi + 1, len(layout), ps, n, len(prev), layout[bi - 1][0] if bi else None, i, PIDS[a], o["data"][i, a], want[a])}
+                if abs(twice[bi]["data"][i, a] - o["data"][i, a]) > 1e-8 * scale:
+                    return {"detail": "project(%s) not idempotent at block %d node %d flavour %d: %r vs %r" % (what, bi + 1, i, PIDS[a], twice[bi]["data"][i, a], o["data"][i, a])}
+                if abs(rev[bi]["data"][i, a] - want[a]) > 1e-8 * scale:
+                    return {"detail": "project(%s) on the same blocks in reverse order (later call in the same process): block %d node %d flavour %d gives %r, expected %r" % (what, bi + 1, i, PIDS[a], rev[bi]["data"][i, a], want[a])}
+                if complete and abs(o["data"][i, a] - F[a]) > 1e-8 * scale:
+                    return {"detail": "project on a complete orthogonal set changed block %d node %d flavour %d: %r -> %r" % (bi + 1, i, PIDS[a], F[a], o["data"][i, a])}
     return None
 
 
@@ -389,7 +429,8 @@ def replay_project(point, basis, sel=None, kind=None):
 def main():
     chk = H.Check("C46")
     thorough = H.tier() == "thorough"
-    chk.bounds = ["blocks: 2 data blocks (a random unordered subset of 5-9 pids, and all 14 pids shuffled) + an empty block, 2 nodes per block (3 in the thorough tier); data entries symbolic reals",
+    chk.bounds = ["one project() call on 5 data blocks (+ an empty one): subset of 5-9 pids -> subset of the same size lacking PIDs of the first -> all 14 pids shuffled -> subset lacking one of them (all with the same number of nodes: 2, thorough 3) -> 3 pids with one node more; data entries symbolic reals",
+                  "history: in the same process the result is projected again and the same blocks are projected in reverse order; every block must come out as the projection of itself",
                   "selections of PIDs and of evolution labels: every single label, %s, subsets of size 3-13 (seeded), the complete set" % ("all 91 pairs" if thorough else "24 seeded pairs"),
                   "custom combinations with symbolic coefficients, orthogonal by construction: one generic 14-vector; two vectors on disjoint supports; (a,b),(−sb,sa) on a shared support; "
                   "(a,b,c),(b,−a,0); complete sets {(a_k,b_k),(−b_k,a_k)}_k and {p_k q+, m_k q−, photon, gluon}"]
